@@ -65,10 +65,10 @@ CHECKS = {
    note="Default build configuration only. TLS 1.3 raw traffic keys are not stored in TLS_CONNECT (only their key schedule), they are covered through the IVs printed next to them. Windows with < 4 distinct byte values are ignored.",
    design="4/C19"),
  "C18": dict(level="fault_enumeration", technique="entropy-source fault injection through a getentropy() interposer: for every randomised operation and every draw index the draw is made to fail; paired runs on equal / different streams; metamorphic dependency analysis of handshake transcripts (records that change when the stream changes from draw i on); repetition histories for nonce reuse",
-   text="Catalogue of 20 library operations (incl. CMS envelop / sign / sign-and-envelop for several recipients and signers, whose SM2 nonces must be pairwise distinct inside one message) and the 6 handshake endpoints x auth modes, with generated inputs: same stream => identical output, other stream => different output, EVERY draw index failing => the operation reports failure and (handshakes) sends no non-alert record that depends on draws >= i. Complete over the draw indices of each generated instance; sampled over inputs.",
+   text="Catalogue of 20 library operations (incl. CMS envelop / sign / sign-and-envelop for several recipients and signers, whose SM2 nonces must be pairwise distinct inside one message) and the 6 handshake endpoints x auth modes, with generated inputs: same stream => identical output, other stream => different output, EVERY draw index failing => the operation reports failure (also: a span of 1 / 40 draws failing with EINTR => failure, or success with exactly the undisturbed output) and (handshakes) sends no non-alert record that depends on draws >= i. Complete over the draw indices of each generated instance; sampled over inputs.",
    note="Trusted: the interposer (per-thread deterministic streams, verified active at start). getentropy() is assumed to be the only entropy source of the build.",
    design="4/C18"),
- "C06": dict(level="exploration", engine="libfuzzer", technique="coverage-guided fuzzing (libFuzzer) of 12 C harnesses against the clang ASan + UBSan(bounds, null, object-size, pointer-overflow) build with exact-size heap buffers, deterministic entropy/clock, dictionary and a seed corpus generated by the library itself (incl. replayable TLCP/TLS 1.2/TLS 1.3 transcripts); half of the mutations of the DER-based targets are structure-aware (LLVMFuzzerCustomMutator editing one TLV node and re-encoding all enclosing lengths); harness-side cryptography where the parser sits behind it (plaintext PrivateKeyInfo encrypted by the harness, record plaintext protected by the harness with the fixed traffic keys); boundary-capacity oracle (learn the needed size, offer need and need-1..8); peer-stream harnesses run tls_do_handshake against a pre-written socketpair and check TLS_CONNECT invariants; corpus and regression inputs replayed under MemorySanitizer",
+ "C06": dict(level="exploration", engine="libfuzzer", technique="(sub-check peerfuzz: Hypothesis-generated malformed but correctly protected handshake messages and application records sent by pure-Python scripted peers that hold the keys, against the gcc ASan build, with TLS_CONNECT invariants) + coverage-guided fuzzing (libFuzzer) of 12 C harnesses against the clang ASan + UBSan(bounds, null, object-size, pointer-overflow) build with exact-size heap buffers, deterministic entropy/clock, dictionary and a seed corpus generated by the library itself (incl. replayable TLCP/TLS 1.2/TLS 1.3 transcripts); half of the mutations of the DER-based targets are structure-aware (LLVMFuzzerCustomMutator editing one TLV node and re-encoding all enclosing lengths); harness-side cryptography where the parser sits behind it (plaintext PrivateKeyInfo encrypted by the harness, record plaintext protected by the harness with the fixed traffic keys); boundary-capacity oracle (learn the needed size, offer need and need-1..8); peer-stream harnesses run tls_do_handshake against a pre-written socketpair and check TLS_CONNECT invariants; corpus and regression inputs replayed under MemorySanitizer",
    text="Every decoding, verifying and printing interface of ASN.1, X.509, CMS, PKCS#8, PEM/base64/hex, SM2/SM9, TLS record/handshake/extension code and every handshake byte stream a client or server of each protocol can receive is searched by mutation of valid objects; any sanitizer report, capacity/invariant violation or confirmed 25 s hang is a violation. The committed regression inputs (fuzz/regress, 27 files) are replayed first. Not exhaustive.",
    note="Trusted: ASan/UBSan-subset/MSan and the harness preconditions (record buffers exactly 5+length bytes, 2048-byte certificate buffers as the callers use, PBKDF2 iteration counts above 2048 not executed, leaks not reported). TLS 1.3 messages after ServerHello are encrypted: their parsers are reached in clear only through fz_tlsrec; deep authenticated states are additionally reached by the in-flight mutation of C10/C19 under ASan.",
    design="4/C06"),
@@ -81,7 +81,7 @@ CHECKS = {
    note="Known findings: EncryptedData / EnvelopedData are SM4-CBC without integrity (GM/T 0010 format), so IV and ciphertext bit flips are accepted there; listed in known_findings.json and reported as KNOWN-FINDING. Certificates inside SignedData are not covered by the CMS signature and are not flipped.",
    design="4/C16"),
  "C20": dict(level="exploration", engine="tsan-harness", technique="generated multi-thread programs (Hypothesis, in the driver) executed by a pthreads C harness statically linked with the ThreadSanitizer build of the library; harness-owned per-thread deterministic getentropy()/time(); differential oracle: per-operation output digests of every concurrent run equal those of the sequential run; yield injection between library calls; delta debugging of failing programs; per-kind soak programs",
-   text="Programs of 2..16 threads x 5..40 operations over 21 kinds (hashes/MAC/KDF, SM4/AES/ZUC modes, SM2, SM9, X.509 parse/verify/issue/print, CMS, base64/PEM/DER, TLS record protection, complete TLCP/TLS 1.2/TLS 1.3 handshakes on private socketpairs) plus same-kind soaks; each program is run once alone and 3-4 times concurrently with different yield-injection seeds; no ThreadSanitizer report with a library frame and identical digests are required. Schedules are sampled, not enumerated.",
+   text="Programs of 2..16 threads x 5..40 operations over 21 kinds (hashes/MAC/KDF, SM4/AES/ZUC modes, SM2, SM9, X.509 parse/verify/issue/print, CMS, base64/PEM/DER, TLS record protection, complete TLCP/TLS 1.2/TLS 1.3 handshakes on private socketpairs) plus same-kind soaks; each program is run once alone and 3-4 times concurrently with different yield-injection seeds; no ThreadSanitizer report with a library frame, identical digests and unchanged process-wide state (signal dispositions, umask, working directory) are required. Schedules are sampled, not enumerated.",
    note="Trusted: clang ThreadSanitizer, the harness's private SHA-256/xoshiro, vlib/pki.py. TSan reports unordered conflicting accesses it observes even without temporal collision, within its bounded per-thread history and only while the earlier thread is alive; accesses made by uninstrumented libc are invisible to it (the ctime() finding surfaced through the digest oracle and an indirect tzset report). Absence of races is never established. Non-trivial = >= 2 threads with intersecting op-kind sets.",
    design="4/C20"),
 }
